@@ -347,6 +347,14 @@ def run_one(prop: Any, rec: Recorder, case: Any) -> None:
     rec.begin(case)
     _ABORT["rec"], _ABORT["fired"] = rec, 0
     _ABORT["last_progress"] = time.monotonic()
+    if _ABORT.get("out") and _ABORT["last_progress"] - _ABORT.get("hb_t", 0.0) > 1.0:
+        # heartbeat for the parent: a shard that spins where neither signal handlers nor its own guardian thread
+        # get a turn (e.g. inside a finaliser run by the garbage collector) is ended from outside
+        _ABORT["hb_t"] = _ABORT["last_progress"]
+        try:
+            Path(str(_ABORT["out"]) + ".hb").touch()
+        except OSError:
+            pass
     signal.signal(signal.SIGALRM, _alarm)
     signal.alarm(CASE_WATCHDOG_S)
     signal.signal(signal.SIGVTALRM, _cpu_alarm)
